@@ -100,7 +100,9 @@ def is_nan(x):
 
 def sym_matrix(ctx, n, name='k', lo=50, hi=200):
     rows = [list(sym_candle(ctx, '%s%d' % (name, i), S.T0 + i * S.MIN, lo, hi, sym_volume=True)) for i in range(n)]
-    return rows, S.make_candles(rows)
+    from ..engine.npshim import ObjArr
+    m = S.make_candles(rows)
+    return rows, (m.view(ObjArr) if m.dtype == object else m)
 
 
 def same_value(ctx, a, b):
